@@ -255,7 +255,25 @@ def r02_3(ctx):
         ctx.check(ok, "DirectCollocation dt (line-role %d)" % cnt, detail="step length is not that of the loop's own interval",
                   expected="(control_grid[k+1]-control_grid[k])/M inside for k in range(N)", found="%s in loops %s" % (val, [li.kind for li in lc]), fi=f, node=d.stmt,
                   sample={"dt": str(val)})
-    ctx.check(cnt >= 3, "DirectCollocation computes the step per interval", detail="dt definitions", expected=">=3 per-interval definitions", found=str(cnt), fi=f)
+    # every use of dt is served by a definition made in the same round of its own k-loop (no value left over from an earlier loop)
+    stale = []
+    uses = 0
+    for x in walk_no_nested(f.node):
+        if isinstance(x, ast.Name) and x.id == "dt" and isinstance(x.ctx, ast.Load):
+            uses += 1
+            loops = sc.enclosing_loops(x)
+            kl = None
+            for tgt, it, owner in loops:
+                from ..loops import classify_iter
+                if classify_iter(it, n)[0] == "N":
+                    kl = owner
+                    break
+            st = sc.stmt_of(x)
+            ok_use = kl is not None and any(d.kind == "assign" and sc.within(d.stmt, kl) and sc.order[d.stmt] < sc.order[st] for d in sc.defs.get("dt", []))
+            if not ok_use:
+                stale.append(x.lineno)
+    ctx.check(cnt >= 1 and uses >= 3 and not stale, "DirectCollocation computes the step per interval", detail="a use of dt is not preceded by a definition in the same round of its own interval loop (step of another interval)",
+              expected="dt defined in the k-loop before every use", found="definitions: %d, uses: %d, uses without a definition in their own loop at lines %s" % (cnt, uses, stale), fi=f)
 
 
 @rule("R02.4", min_instances=2, desc="collocation times: tr[k][i][j] = integrator_grid[k][i] + dt_k*tau[j] (decided on the lists the layout interpreter builds from add_constraints, whatever statement form fills them)")
